@@ -20,7 +20,7 @@ def main(prop, tier):
     chk.assumptions += ["sequential consistency of the atomic word (std::atomic seq/acq-rel operations are single steps)",
                         "model counters modulo 4; the code's modulus 2^29 is exercised by the replay on boundary values",
                         "compare_exchange_weak spurious failures are modelled as 'expected reloaded, retry'"]
-    for cfg in (["MC_Version_A.cfg", "MC_Version_B.cfg"] if tier == "quick" else ["MC_Version_A.cfg", "MC_Version_B.cfg", "MC_Version_C.cfg"]):
+    for cfg in (["MC_Version_A.cfg", "MC_Version_B.cfg", "MC_Version_E.cfg"] if tier == "quick" else ["MC_Version_A.cfg", "MC_Version_B.cfg", "MC_Version_E.cfg", "MC_Version_C.cfg"]):
         run_model(chk, cfg)
     exe = build("verdrv", ["verdrv.cpp"])
     os.makedirs(os.path.join(BUILD, "traces"), exist_ok=True)
